@@ -149,7 +149,7 @@ func (ex *Exec) hexDigits(st *State, v *term.Term, upper bool, minDigits int) []
 			hi = term.Ult(v, term.Const(w, uint64(1)<<uint(4*k)))
 		}
 		cond := term.And(lo, hi)
-		if ex.feasibleWith(st.G, cond, false) {
+		if ex.feasibleSt(st, cond, false) {
 			cands = append(cands, struct {
 				cond *term.Term
 				k    int
